@@ -147,7 +147,7 @@ def run_lockstep(tier, seed, force=False):
         return {"fatal": "extraction / OCaml driver build failed:\n" + outd[-4000:]}
     key = "%s-%s-%s-%d" % (harness_key(), vlib.tree_hash([os.path.join(COQ, "Model"), os.path.join(COQ, "Extract"),
                                                          os.path.join(vlib.VERIF, "ocaml"), os.path.join(vlib.VERIF, "scripts", "lockstep.py"),
-                                                         CORPUS]), tier, seed)
+                                                         os.path.abspath(__file__), CORPUS]), tier, seed)
     cdir = os.path.join(vlib.BUILD, "cache", key)
     rfile = os.path.join(cdir, "result.json")
     if os.path.exists(rfile) and not force:
@@ -174,10 +174,33 @@ def run_lockstep(tier, seed, force=False):
         runs = [(n, ["gen"] + a) for n, a in profiles(tier, seed)]
         for name, args in runs + [("corpus", None)]:
             if args is None:
-                ct = corpus_text()
-                if not ct.strip():
+                # corpus: one process per script, so that a script on which the implementation corrupts memory and
+                # dies does not take the rest of the corpus with it
+                files = sorted(glob.glob(os.path.join(CORPUS, "*.script")))
+                if not files:
                     continue
-                rc, itext = vlib.run([hbin, "run"], timeout=1200, input=ct)
+                parts, rc = [], 0
+                for f in files:
+                    sname = "corpus/" + os.path.basename(f)
+                    rc1, t1 = vlib.run([hbin, "run"], timeout=300, input="#script %s\n%s\n" % (sname, open(f).read()))
+                    if rc1 != 0:
+                        kept, tail = salvage(t1)
+                        res["divergences"].append({"script": "%s/%s" % (bname, sname), "line": -1, "components": ["op"],
+                                                   "detail": "the harness process died (exit %d) while running a corpus script against the "
+                                                             "implementation: %s" % (rc1, tail[-800:])})
+                        fatal = fatal_script(kept)
+                        if fatal:
+                            fname, fops = fatal
+                            had_panic = any(o.split()[:1] == ["panic"] or (o.split()[:1] == ["collect"] and len(o.split()) > 3) for o in fops)
+                            for prop in ["C01", "C04"] + (["C11"] if had_panic else []):
+                                res["violations"].append({
+                                    "property": prop, "key": None,
+                                    "desc": "the implementation corrupts memory: the process running this script against the real crate "
+                                            "died with exit %d (%s) inside its last operation `%s`" % (rc1, tail.strip().split("\n")[-1][:120] if tail.strip() else "no message", fops[-1]),
+                                    "script": "%s/%s" % (bname, sname), "line": len(fops) - 1, "script_text": "\n".join(fops)})
+                        t1 = kept
+                    parts.append(t1)
+                itext = "\n".join(parts)
             else:
                 rc, itext = vlib.run([hbin] + args, timeout=3000)
             # The harness streams every trace line as it is produced. If the crate under test corrupts memory and
@@ -645,6 +668,52 @@ DROP_PANIC = {
 }
 
 
+# Handles that outlive their arena, presented to sets of later arenas that reuse the dead set's ADDRESS (the model has
+# no addresses): harness/src/stale.rs, deterministic, model-independent oracle (a test).
+STALE_HANDLES = ("C14", "C20")
+
+
+def run_stale():
+    okh, outh, hbin = build_harness(False)
+    if not okh:
+        return None, "harness does not build: " + outh[-1500:]
+    rc, raw = vlib.run([hbin, "stale"], timeout=300)
+    viols = [l[5:] for l in raw.splitlines() if l.startswith("VIOL ")]
+    summ = None
+    for l in raw.splitlines():
+        if l.startswith("SUMMARY "):
+            summ = dict(kv.split("=") for kv in l.split()[1:])
+    if summ is None:
+        if viols or rc != 0:
+            viols.append("the implementation process died while stale handles were presented (rc=%s): %s" % (rc, raw[-300:]))
+            summ = {"trials": "?", "presentations": "?", "address_coincidences": "?", "violations": str(len(viols)), "died": "1"}
+        else:
+            return None, "stale run failed rc=%s: %s" % (rc, raw[-1500:])
+    return (viols, summ), ""
+
+
+def stale_handle_scenarios(chk, pid):
+    res, err = run_stale()
+    if res is None:
+        chk.correspondence("stale-handle scenarios ran on the implementation", False, err)
+        return
+    viols, summ = res
+    chk.correspondence("stale-handle scenarios ran on the implementation (%s presentations of a dead arena's handle, %s with the dead set's address reused)" % (
+        summ.get("presentations"), summ.get("address_coincidences")), True, str(summ))
+    chk.cov["stale_handles"] = summ
+    if summ.get("address_coincidences") in ("0", None):
+        chk.notes.append("stale-handle scenarios: the allocator never reused the dead set's address in this run (the scenario did not reach its target state)")
+    try:
+        chk.evaluations += int(summ.get("presentations", 0))
+    except ValueError:
+        pass
+    for v in viols[:2]:
+        name, _, what = v.partition(" :: ")
+        chk.violation("%s: %s [scenario %s]" % (pid, what, name),
+                      "# stale-handle scenario (harness/src/stale.rs); replay: python3 scripts/check.py %s --replay <this file>\n"
+                      "stalehandle: %s\nobserved: %s\n" % (pid, name, what))
+
+
 def run_droppanic(release=False):
     okh, outh, hbin = build_harness(release)
     if not okh:
@@ -748,6 +817,8 @@ def run_core(chk, pid, tier, seed, extra_cover_prefixes=()):
         trace_premise(chk, pid, seed)
     if pid in DROP_PANIC:
         drop_panic_scenarios(chk, pid, tier)
+    if pid in STALE_HANDLES:
+        stale_handle_scenarios(chk, pid)
     chk.evaluations = res["lines"] + chk.evaluations
     cov = {k: v for k, v in res["coverage"].items() if k.startswith(pid + ":") or any(k.startswith(p) for p in extra_cover_prefixes)}
     chk.cov["oracle_coverage_cells"] = cov
@@ -768,6 +839,16 @@ def run_core(chk, pid, tier, seed, extra_cover_prefixes=()):
 def replay(pid, path):
     """Re-run a stored op script against the current /repo and the model; print both traces' verdict."""
     txt = open(path).read()
+    if re.search(r"(?m)^stalehandle: ", txt):
+        res, err = run_stale()
+        if res is None:
+            print(err)
+            return 1
+        for v in res[0][:5]:
+            print("OBSERVED on the current tree: %s" % v)
+        print("summary: %s" % res[1])
+        print("violations observed on the current tree: %d" % len(res[0]))
+        return 1 if res[0] else 0
     m = re.search(r"(?m)^droppanic: (.*)$", txt)
     if m:
         res, err = run_droppanic(False)
